@@ -468,7 +468,9 @@ func TestVerifC19(t *testing.T) {
 				if sr.Chance(8) {
 					code = uint64(sr.Intn(256))
 				}
-				msgs = append(msgs, &rtnetlink.LinkMessage{Attributes: &rtnetlink.LinkAttributes{
+				// the kernel's interface index is NOT what a change is attributed to: interfaces get renamed and
+				// indices are reused, so the same index appears under different names (and vice versa)
+				msgs = append(msgs, &rtnetlink.LinkMessage{Index: uint32(sr.Intn(3)), Attributes: &rtnetlink.LinkAttributes{
 					Name: c19Name(ifc), OperationalState: rtnetlink.OperationalState(code)}})
 				cm = append(cm, verifh.Some(verifh.Pair(verifh.N(ifc), verifh.N(code))))
 				in = append(in, [2]uint64{ifc, code})
@@ -495,6 +497,43 @@ func TestVerifC19(t *testing.T) {
 		}
 		out.Emit(verifh.Case{ID: id, Coq: verifh.App("CProcess", verifh.List(cm), verifh.List(obs)),
 			Input: in, Observed: obsJ, Tags: []string{"stream:process"}, ImplViolation: viol})
+	}
+
+	// ---- (5b) Watch entered with a context that is already cancelled (a signal during start-up): every
+	// subscriber channel is still closed, exactly once, and Watch returns
+	if out.Wants("c19-precancelled") {
+		w := NewWatcher()
+		w.watch = func(ctx context.Context, notify func(changeSet)) error {
+			<-ctx.Done()
+			return nil
+		}
+		a, b := w.Subscribe("vif1", LinkAny), w.Subscribe("vif2", LinkDown)
+		ctx, cancel := context.WithCancel(context.Background())
+		cancel()
+		done := make(chan error, 1)
+		go func() { done <- w.Watch(ctx) }()
+		viol := ""
+		select {
+		case err := <-done:
+			if err != nil {
+				viol = fmt.Sprintf("Watch with a cancelled context returned %v", err)
+			}
+		case <-time.After(5 * time.Second):
+			viol = "Watch with a cancelled context did not return within 5 s"
+		}
+		if viol == "" {
+			for name, c := range map[string]<-chan Change{"vif1": a, "vif2": b} {
+				select {
+				case _, ok := <-c:
+					if ok {
+						viol = "subscriber " + name + " received a change although nothing happened"
+					}
+				case <-time.After(2 * time.Second):
+					viol = "the channel of subscriber " + name + " was not closed when watching ended (context cancelled before Watch was entered)"
+				}
+			}
+		}
+		out.Emit(verifh.Case{ID: "c19-precancelled", Input: map[string]any{"kind": "precancelled"}, Tags: []string{"stream:precancelled"}, ImplViolation: viol})
 	}
 
 	// ---- (6) Subscribe concurrent with a running notify (no race detector needed): LAST, so that every other
